@@ -98,6 +98,10 @@ Fixpoint resolve (fuel : nat) (fr : frames) (d : nat) (e : expr) {struct fuel} :
     | EAttr e1 a => option_map (fun r => CAttr r a) (resolve f fr d e1)
     | ECall (ELam ps body) args =>
         resolve f (define_all ps (map BAst args) [] :: fr) d body
+    | ECall (EName fn) args =>
+        (* visit_Call dispatches on the *name* in func position (call_<name>, FunctionAST, "Do not know how to
+           call"): it is never looked up in the frame stack, whatever it is bound to *)
+        option_map (CCall (CFree fn)) (map_opt (resolve f fr d) args)
     | ECall g args =>
         match resolve f fr d g with
         | None => None
